@@ -552,6 +552,7 @@ func C17(ctx *core.Ctx, r *core.Report) {
 	// --- reflect-compare-kinds -----------------------------------------------
 	c17ReflectCompare(ctx, r)
 	c17KeyMatchConjunction(ctx, r)
+	c17CompareSignOnly(ctx, r)
 }
 
 // c17TupleBound: in val.CompareVals every index into the second tuple must be
@@ -887,4 +888,68 @@ func c17KeyMatchConjunction(ctx *core.Ctx, r *core.Report) {
 		}
 		r.Ob("key-match-conjunction", k, ctx.Pos(ret.Pos()), msg == "", msg)
 	}
+}
+
+// c17CompareSignOnly: callers of Comparable.Compare (and of CompareVals) use
+// the sign of the result only. Compare's contract is negative/zero/positive;
+// implementations are free to return any magnitude, so a test against 1 or -1
+// treats "greater by more than one" as equal.
+func c17CompareSignOnly(ctx *core.Ctx, r *core.Report) {
+	n := 0
+	seen := map[string]int{}
+	for _, f := range ctx.RepoFuncs() {
+		p := core.FnPkgPath(f)
+		if p != core.Full("val") && p != core.Full("node") && p != core.Full("nodeutil") && p != core.Full("meta") {
+			continue
+		}
+		for _, c := range core.CallSites(f) {
+			isCmp := false
+			if m := core.IfaceMethod(c); m != nil && m.Name() == "Compare" {
+				isCmp = true
+			}
+			if cal := core.StaticCallee(c); cal != nil {
+				if cal.Name() == "Compare" && core.FnPkgPath(cal) == core.Full("val") {
+					isCmp = true
+				}
+				if core.FnName(cal) == "val.CompareVals" {
+					isCmp = true
+				}
+			}
+			v := c.Value()
+			if !isCmp || v == nil || v.Referrers() == nil {
+				continue
+			}
+			if b, ok := v.Type().Underlying().(*types.Basic); !ok || b.Info()&types.IsInteger == 0 {
+				continue
+			}
+			n++
+			bad := ""
+			var visit func(x ssa.Value, depth int)
+			visit = func(x ssa.Value, depth int) {
+				if depth > 2 || x.Referrers() == nil {
+					return
+				}
+				for _, ref := range *x.Referrers() {
+					switch y := ref.(type) {
+					case *ssa.BinOp:
+						other := y.Y
+						if other == x {
+							other = y.X
+						}
+						if k, ok := core.ConstInt(other); ok && k != 0 && (y.Op == token.EQL || y.Op == token.NEQ || core.RelOp(y.Op)) {
+							bad = ctx.Pos(y.Pos())
+						}
+					case *ssa.Phi:
+						visit(y, depth+1)
+					case *ssa.Convert:
+						visit(y, depth+1)
+					}
+				}
+			}
+			visit(v, 0)
+			r.Ob("compare-sign-only", loopKey(seen, f), ctx.Pos(c.Pos()), bad == "",
+				"the result of Compare is tested against a non-zero constant ("+bad+"): Compare promises a sign, not -1/0/1, so a larger difference is taken for equal")
+		}
+	}
+	r.Floor("compare-sign-only", n, 4)
 }
